@@ -168,7 +168,23 @@ def close(a, b, atol):
 def judge(L, seed):
     from chmpy.shape.sht import SHT
     nrng = np.random.default_rng(seed)
+    # other transform objects of the same degree with their own grids (finer in theta, coarser in phi) have been built and used before:
+    # the default object gets the default grid all the same
+    other = SHT(L, ntheta=2 * L + 6)
+    if len(other.cos_theta) != 2 * L + 6 or len(other.weights) != 2 * L + 6:
+        return f"L={L}: SHT({L}, ntheta={2 * L + 6}) has {len(other.cos_theta)} Gauss-Legendre nodes"
+    if L >= 1:
+        co = nrng.normal(size=other.nlm()) + 1j * nrng.normal(size=other.nlm())
+        back_o = other.analysis(other.synthesis(co))
+        if np.abs(back_o - co).max() > 1e-10 * (L + 1):
+            return f"L={L}: analysis(synthesis(c)) != c on the explicit grid ntheta={2 * L + 6} (max dev {np.abs(back_o - co).max():.3g}): any Gauss-Legendre grid with at least L+1 nodes is exact"
+    SHT(L, nphi=4 * L + 8, ntheta=L + 2)
     sht = SHT(L)
+    n_def = L + 1
+    n_def += (n_def & 1)
+    n_def = ((n_def + 7) // 8) * 8
+    if sht.ntheta != n_def or len(sht.cos_theta) != n_def or len(sht.weights) != n_def or np.shape(sht.grid[0]) != (n_def, sht.nphi):
+        return f"L={L}: SHT({L}) built after SHT({L}, ntheta={2 * L + 6}) has {len(sht.cos_theta)} Gauss-Legendre nodes / grid {np.shape(sht.grid[0])}, the default is {n_def} x {sht.nphi}"
     tol = 1e-10 * (L + 1)
     # H_gl: Gram matrices of the normalised Legendre values at the nodes, per m
     P = np.array([sht.plm.evaluate_batch(ct, result=sht.plm_work_array).copy() for ct in sht.cos_theta])  # (ntheta, nplm)
@@ -257,6 +273,8 @@ def judge(L, seed):
         from scipy.special import sph_harm_y
         pts = [(float(nrng.uniform(0, np.pi)), float(nrng.uniform(0, 2 * np.pi))) for _ in range(4)]
         pts += [(1e-3, 0.4), (3e-3, 2.0), (np.pi - 2e-3, 5.0), (0.0, 0.0), (0.0, 1.3), (np.pi, 0.7)]
+        # so close to a pole that cos(theta) rounds to +-1 although theta is not 0 or pi, and the last colatitudes before that
+        pts += [(3e-9, 0.9), (np.pi - 4e-9, 2.2), (1e-8, 4.0), (2e-8, 0.3), (np.pi - 3e-8, 1.1), (1e-6, 3.3)]
         for th, ph in pts:
             want = sum(cc[l * (l + 1) + m] * sph_harm_y(l, m, th, ph) for l in range(L + 1) for m in range(-l, l + 1))
             got = sht.evaluate_at_points(cc, th, ph)
